@@ -4,6 +4,7 @@ from pathlib import Path
 import histgen
 from vlib import Check
 from checks.exporter_common import run_histories, rng_for
+from checks.writer_common import run_scenarios
 
 
 def preambles(rng, tier):
@@ -44,6 +45,15 @@ def run(tier):
     hs = preambles(rng, tier)
     m = run_histories(chk, hs, {"C09"}, label="c09")
     chk.distinct = m["execs"]
+    # the preamble of each output of an exporter that gains a parameter set between two outputs - without faults and with one
+    # I/O fault at every system call: the output opened after the fault must carry ITS preamble (two sets), not an earlier one
+    scs = []
+    for i, (comp, kind) in enumerate([("none", "file"), ("gz", "file"), ("none", "fd")] + ([("xz", "file"), ("gz", "fd")] if tier == "thorough" else [])):
+        for j, n in enumerate((3, 9) if tier == "quick" else (1, 3, 9, 40)):
+            scs.append({"id": 9000 + 10 * i + j, "target": "exporter", "comp": comp, "kind": kind, "max": 4, "nbps": [1, 2],
+                        "steps": [{"op": "rec", "n": n}, {"op": "wb"}, {"op": "addbp"}, {"op": "rot", "export": True},
+                                  {"op": "rec", "n": 3}, {"op": "wb"}], "pre": []})
+    run_scenarios(chk, "c16", scs, {"C09"}, "c09w")
     return chk.finish()
 
 
